@@ -50,6 +50,7 @@ type Contract struct {
 	Props      []string
 	Requires   []*Clause
 	Ensures    []*Clause
+	Yields     []*Clause // rely conditions re-assumed after every yield point (select, channel operation)
 	Records    []*Clause // definitional ghost call records: assumed at call sites, not checked in the body
 	Assigns    []*Clause
 	HasAssigns bool // explicit assigns clause present
@@ -367,7 +368,7 @@ func (cs *ContractSet) ParseContractFile(path, pkgPath string) error {
 			} else {
 				errf(l, "props outside of func/lemma")
 			}
-		case "requires", "ensures", "assert", "records":
+		case "requires", "ensures", "assert", "records", "yields":
 			if curLemma != nil && kw == "requires" {
 				if c := mkClause(l, rest); c != nil {
 					curLemma.Hyps = append(curLemma.Hyps, c)
@@ -389,6 +390,8 @@ func (cs *ContractSet) ParseContractFile(path, pkgPath string) error {
 				cur.Ensures = append(cur.Ensures, c)
 			case "records":
 				cur.Records = append(cur.Records, c)
+			case "yields":
+				cur.Yields = append(cur.Yields, c)
 			case "assert":
 				cur.Asserts = append(cur.Asserts, c)
 			}
@@ -629,18 +632,23 @@ func isQualified(key string) bool {
 		return true
 	}
 	parts := strings.Split(key, ".")
-	if len(parts) == 2 && parts[0] != "" && parts[0][0] >= 'a' && parts[0][0] <= 'z' && pkgLike[parts[0]] {
+	if (len(parts) == 2 || len(parts) == 3) && parts[0] != "" && parts[0][0] >= 'a' && parts[0][0] <= 'z' && pkgLike[parts[0]] {
 		return true
 	}
 	return false
 }
 
 // single-element import paths that may qualify names in contract files
-var pkgLike = map[string]bool{"bytes": true, "sort": true, "sync": true, "fmt": true, "errors": true, "math": true, "time": true, "strings": true, "context": true}
+var pkgLike = map[string]bool{"net": true, "bytes": true, "sort": true, "sync": true, "fmt": true, "errors": true, "math": true, "time": true, "strings": true, "context": true}
 
 func pkgOfKey(key string) string {
 	if i := strings.Index(key, ".("); i > 0 {
 		return key[:i]
+	}
+	if !strings.Contains(key, "/") {
+		if i := strings.Index(key, "."); i > 0 {
+			return key[:i]
+		}
 	}
 	if i := strings.LastIndex(key, "."); i > 0 {
 		return key[:i]
